@@ -144,8 +144,12 @@ def load_theory_cache(filename, username="master"):
     cache = theory_cache[username][filename]
     timestamp = os.path.getmtime(user_file(filename, username))
 
-    if 'timestamp' in cache and timestamp == cache['timestamp']:
-        # No need to update cache
+    def file_timestamps(names):
+        return [os.path.getmtime(user_file(name, username)) for name in names]
+
+    if 'timestamp' in cache and timestamp == cache['timestamp'] and \
+       file_timestamps(cache['depend_list']) == cache['depend_timestamps']:
+        # Neither this file nor any of the imported files has changed
         return cache
 
     # Load all required macros and methods for this file.
@@ -162,8 +166,15 @@ def load_theory_cache(filename, username="master"):
     # Load all imported theories. This is done before entering the
     # fresh_theory block: loading a theory into the cache may import
     # modules (see above) that call load_theory, which replaces theory.thy.
-    depend_list = get_import_order(cache['imports'], username)
-    prev_caches = [load_theory_cache(prev_name, username) for prev_name in depend_list]
+    # Imports are re-read with the content; refreshing imported theories may
+    # change their imports in turn, so repeat until the order is stable.
+    data = load_json_data(filename, username)
+    cache['imports'] = data['imports']
+    while True:
+        depend_list = get_import_order(cache['imports'], username)
+        prev_caches = [load_theory_cache(prev_name, username) for prev_name in depend_list]
+        if depend_list == get_import_order(cache['imports'], username):
+            break
 
     with theory.fresh_theory():
         for prev_cache in prev_caches:
@@ -173,7 +184,8 @@ def load_theory_cache(filename, username="master"):
 
         # Use this theory to parse the content of current theory
         cache['timestamp'] = timestamp
-        data = load_json_data(filename, username)
+        cache['depend_list'] = depend_list
+        cache['depend_timestamps'] = file_timestamps(depend_list)
         cache['content'] = []
         for index, item in enumerate(data['content']):
             item = items.parse_item(item)
